@@ -108,6 +108,40 @@ theorem C16_final_value_commutative (w : Width) (k : Kind) (init : Word w) (prog
   intro x hx y hy z
   exact hcomm x (hperm.mem_iff.mp hx) y (hperm.mem_iff.mp hy) z
 
+/-- **C16 (no update lost by `op=`, `++`, `--`, `atomic_fetch_*`).**  Any number of threads, each performing
+    any list of updates `x op= v` (`(op, v, yields-old?)`, the last flag distinguishing `atomic_fetch_*` from `op=`)
+    with operators of one commuting class - `+=`/`-=`/`++`/`--`, or `*=`, or `&=`, or `|=`, or `^=` - on an
+    object of any width and signedness, with `(T)(old op val)` computed as chibicc does (promotion to `int`,
+    operation, truncation): under every schedule, once all threads have finished the object holds the initial
+    value with every single update applied. -/
+theorem C16_opassign_no_lost_update (w : Width) (k : Kind) (sg : Bool) (init : Word w)
+    (progs : List (List (Op × Word w × Bool))) (cls : Nat)
+    (hcls : ∀ p ∈ progs.flatten, p.1.commClass = some cls) (sched : List Nat) :
+    let toOper : Op × Word w × Bool → Oper w := fun p => .rmw (Op.fn w sg p.1 p.2.1) p.2.2
+    let s := exec sched (initSys w k init (progs.map (·.map toOper)))
+    s.terminated = true → s.cell = progs.flatten.foldl (fun c p => p.1.pure c p.2.1) init := by
+  intro toOper s hterm
+  have hflat : (progs.map (·.map toOper)).flatten = progs.flatten.map toOper := by
+    rw [List.map_flatten]
+  have hsome : ∀ p ∈ progs.flatten, p.1.commClass.isSome = true := fun p hp => by rw [hcls p hp]; rfl
+  have hcomm : ∀ o1 ∈ (progs.map (·.map toOper)).flatten, ∀ o2 ∈ (progs.map (·.map toOper)).flatten, ∀ c,
+      applyOp (applyOp c o1) o2 = applyOp (applyOp c o2) o1 := by
+    rw [hflat]
+    intro o1 h1 o2 h2 c
+    obtain ⟨p1, hp1, rfl⟩ := List.mem_map.mp h1
+    obtain ⟨p2, hp2, rfl⟩ := List.mem_map.mp h2
+    simp only [toOper, applyOp_rmw_fn w sg _ (hsome p1 hp1), applyOp_rmw_fn w sg _ (hsome p2 hp2)]
+    exact Op.pure_comm p1.1 p2.1 (hsome p1 hp1) (by rw [hcls p1 hp1, hcls p2 hp2]) c p1.2.1 p2.2.1
+  have hfin := C16_final_value_commutative w k init (progs.map (·.map toOper)) sched hcomm hterm
+  rw [hfin, hflat, List.foldl_map]
+  apply foldl_congr_mem
+  intro c p hp
+  exact applyOp_rmw_fn w sg _ (hsome p hp) _ _ _
+
+/-- non-vacuity: three threads, `x += 200`, `x -= 77`, `x++` twice, on an `unsigned char` starting at 250 -/
+example : ∀ p ∈ ([[(Op.add, 200#8, false)], [(Op.sub, 77#8, false)], [(Op.add, 1#8, true), (Op.add, 1#8, false)]] :
+    List (List (Op × Word .w8 × Bool))).flatten, p.1.commClass = some 0 := by decide
+
 /-- **C16 (lock-freedom).**  A `lock cmpxchg` of a retry loop fails only if another thread has committed
     an operation after this thread's latest read of the object (its initial load or its previous failed
     `lock cmpxchg`): the log then ends `… e … ` with `e` a commit of another thread and nothing of this
@@ -129,6 +163,64 @@ theorem C16_lockfree (w : Width) (k : Kind) (init : Word w) (progs : List (List 
     have hb : th.believes = some (readReg w th.rax) := by simp [Thread.believes, htodo, hpc]
     have hcell := hbel _ hb hn
     simp [stepThread, htodo, hpc, lockCmpxchg, hcell] at hfail
+
+/-- non-vacuity of `C16_lockfree` and of the failure path in general: two threads doing `x += 1` on an 8-bit
+    object; thread 0 runs its 7 instructions up to the `lock cmpxchg`, thread 1 completes its locked instruction,
+    then thread 0 is at `lock cmpxchg`, its attempt is going to fail (ZF = 0), and the log ends with thread 1's commit -/
+example :
+    let incr : Oper .w8 := .rmw (fun c => some (c + 1)) false
+    let s := exec (List.replicate 7 0 ++ List.replicate 8 1) (initSys .w8 .unsigned 0#8 [[incr], [incr]])
+    s.threads.map (·.pc) = [.cmpxchg, .sete] ∧
+    (s.threads.map fun th => (stepThread s.kind s.cell th).th.zf) = [false, true] ∧
+    s.log.map (fun e => (e.tid, e.kind.isCommit)) = [(0, false), (1, false), (1, true)] := by decide
+
+set_option maxRecDepth 8000 in
+/-- non-vacuity of `C16_no_lost_update`: the same run continued to termination (thread 0 fails, writes the observed
+    value back, goes round the loop and commits): nothing is lost, `x += 1` yields 2 in thread 0 and 1 in thread 1 -/
+example :
+    let incr : Oper .w8 := .rmw (fun c => some (c + 1)) false
+    let s := exec (List.replicate 7 0 ++ List.replicate 8 1 ++ List.replicate 25 0 ++ List.replicate 9 1)
+      (initSys .w8 .unsigned 0#8 [[incr], [incr]])
+    s.terminated = true ∧ s.cell = 2#8 ∧ s.threads.map (·.results) = [[.val 2#8], [.val 1#8]] := by decide
+
+/-- **C16 (lock-freedom, bounded).**  From any reachable state in which thread `t` is inside a retry loop whose
+    current attempt has not (yet) succeeded: along any continuation during which no operation of any thread
+    commits, thread `t` has either trapped (division) or each of its instructions brought it one closer to its
+    next successful `lock cmpxchg` - so it executes at most 30 instructions (= one failing round + one
+    succeeding round of the loop).  Hence whenever some thread in a retry loop takes more than 30 steps, some
+    operation (its own or another thread's) has committed: the system as a whole always makes progress. -/
+theorem C16_lockfree_progress (w : Width) (k : Kind) (init : Word w) (progs : List (List (Oper w)))
+    (sched0 sched : List Nat) (t : Nat) (f : Word w → Option (Word w)) (ro : Bool) (rest : List (Oper w)) :
+    let s := exec sched0 (initSys w k init progs)
+    let s' := exec sched s
+    Waiting s t f ro rest →
+      (ncommits s' = ncommits s → trapped s' t ∨ sched.count t + distanceOf s' t = distanceOf s t) ∧
+      (sched.count t > 30 → ncommits s < ncommits s' ∨ trapped s' t) := by
+  intro s s' hw
+  have g : Good init progs s := Good_exec sched0 (Good_init k init progs)
+  have aux := fun h => progress_aux (init := init) (progs := progs) t f ro rest sched g hw h
+  refine ⟨aux, ?_⟩
+  intro hcount
+  have hmono := ncommits_exec sched s
+  by_cases hn : ncommits s' = ncommits s
+  · rcases aux hn with h | h
+    · exact Or.inr h
+    · exfalso
+      have hd : distanceOf s t ≤ 30 := by
+        unfold distanceOf
+        cases s.threads[t]? with
+        | none => simp
+        | some th => exact distance_le th s.cell
+      omega
+  · left
+    have : ncommits s ≤ ncommits s' := hmono
+    omega
+
+/-- non-vacuity of `C16_lockfree_progress`: initially every thread of a two-thread `x += 1` program is waiting,
+    at distance 8 from its commit -/
+example : Waiting (initSys .w8 .unsigned 0#8 [[ChibiVerif.Atomics.Oper.rmw (fun c => some (c + 1)) false],
+    [.rmw (fun c => some (c + 1)) false]]) 1 (fun c => some (c + 1)) false [] :=
+  ⟨_, rfl, rfl, rfl, by decide⟩
 
 /-- **C16 (exchange).**  ND_EXCH: after the (private) evaluation of the second argument - and, for a floating
     object, its move from `%xmm0` to `%rax` - the single `xchg` instruction, executed while the object holds
